@@ -225,3 +225,51 @@ def each_calls(body, coll_pat, method, env=None, allow_guard=None):
                                 return True, "iterator " + n["method"]
                             return False, "call guarded by %s" % cs
     return False, "no iteration over %s calling %s on each element" % (coll_pat, method)
+
+
+def _conditions_to(root, target):
+    from pathcond import conditions_to
+
+    return conditions_to(root, target)
+
+
+def visits_all_statements(fn, visitor=None):
+    """Does the pass look at every statement of every basic block of its cfg parameter?  Accepted shapes:
+    `for b in cfg.iter() { for s in b.iter() { V } }`, `for s in cfg.iter().flat_map(|b| b.iter()) { V }` and
+    `cfg.iter().flat_map(|b| b.iter()).for_each(|s| V)`, where V is reached for every statement: no `break`/`return`
+    in the loops, and - when a visitor function is named - V is an unconditional call of it."""
+    pv = params(fn)
+    if not pv:
+        return False, "no cfg parameter"
+    cfg = pv[0]
+    if [r for r in walk(fn["body"]) if r["k"] in ("Return", "Break")]:
+        return False, "early exit in the pass"
+    flat = "%s.iter().flat_map(|__b| __b.iter())" % cfg
+    shapes = []
+    for n, b in find(fn["body"], "for __b in %s.iter() { __body }" % cfg):
+        n = strip(n)
+        if n.get("k") != "For":
+            continue
+        for n2, b2 in find(n["body"], "for __s in %s.iter() { __inner }" % b["__b"]) + find(n["body"], "for __s in %s { __inner }" % b["__b"]):
+            n2 = strip(n2)
+            if n2.get("k") == "For" and not (_conditions_to(n["body"], n2) or []) and not any(sh[1] is n2["body"] for sh in shapes):
+                shapes.append(("nested loops", n2["body"], b2["__s"]))
+    for n, b in find(fn["body"], "for __s in %s { __body }" % flat):
+        n = strip(n)
+        if n.get("k") == "For" and not any(sh[1] is n["body"] for sh in shapes):
+            shapes.append(("flat_map loop", n["body"], b["__s"]))
+    for n, b in find(fn["body"], "%s.for_each(|__s| __v)" % flat):
+        cl = n["args"][0]
+        shapes.append(("flat_map/for_each", cl["body"], b["__s"]))
+    if len(shapes) != 1:
+        return False, "expected one traversal of every statement of every block, found %d" % len(shapes)
+    how, body, svar = shapes[0]
+    if visitor:
+        cs_ = [c for c in walk(body) if c["k"] == "Call" and c["func"]["k"] == "Path" and c["func"]["path"].rsplit("::", 1)[-1] == visitor]
+        if len(cs_) != 1 or render(strip(cs_[0]["args"][0])) != svar:
+            return False, "%s: the visitor is not called once with the statement" % how
+        if body is not cs_[0] and (_conditions_to(body, cs_[0]) or []):
+            return False, "%s: the visitor call is conditional" % how
+    return True, how
+
+
